@@ -79,7 +79,7 @@ Init ==
 
 Top == stack = <<>>
 KeepCache == UNCHANGED <<seen, graph>>
-AtomicKinds == {"partial_weight", "partial_weight_interference", "fit_fractions"}
+AtomicKinds == {"partial_weight", "partial_weight_interference", "fit_fractions", "plot_weights"}
 \* a derived computation is one Python call: nothing else happens until it returns or raises
 \* (a factor iteration is a generator: the consumer's code runs between its steps)
 Interleavable == IF stack = <<>> THEN TRUE ELSE stack[Len(stack)].kind \notin AtomicKinds
@@ -185,12 +185,18 @@ StartFitFractions(rs, isNew) ==
     /\ Push(CompFrame("fit_fractions", m.sel, FFTodo(rs)))
     /\ m' = IF isNew THEN m ELSE SetUsedResNames(m, Active(rs))
     /\ UNCHANGED base /\ KeepCache
+\* tf_pwa.config_loader.plotter.PlotAllData(amp, data, phsp, res=[...]): partial weights of
+\* resonance sets for plots: set_used_res(rs_i); amp(phsp) for each entry, then restore
+StartPlotWeights ==
+    /\ Tick /\ Interleavable
+    /\ Push(CompFrame("plot_weights", m.sel, [i \in 1..K |-> {i}] \o <<Chains>>))
+    /\ UNCHANGED <<m, base>> /\ KeepCache
 StartFactorIteration ==                \* for chain, factors in amp.factor_iteration():
     /\ Tick /\ Interleavable
     /\ Push(CompFrame("factor_iteration", m.sel, [i \in DOMAIN m.sel |-> <<m.sel[i]>>]))
     /\ UNCHANGED <<m, base>> /\ KeepCache
 
-IsComp(f) == f.kind \in {"partial_weight", "partial_weight_interference", "fit_fractions", "factor_iteration"}
+IsComp(f) == f.kind \in {"partial_weight", "partial_weight_interference", "fit_fractions", "factor_iteration", "plot_weights"}
 
 CompStep ==                            \* one inner evaluation
     /\ ~Top /\ Tick
@@ -199,6 +205,7 @@ CompStep ==                            \* one inner evaluation
         /\ m' = CASE f.kind = "partial_weight" -> SetUsedResIdx(m, Head(f.todo))
                   [] f.kind = "partial_weight_interference" -> SetUsedChains(m, Head(f.todo))
                   [] f.kind = "fit_fractions" -> SetUsedResNames(m, Head(f.todo))
+                  [] f.kind = "plot_weights" -> SetUsedResNames(m, Head(f.todo))
                   [] OTHER -> SetUsedChains(m, Head(f.todo))
         /\ stack' = [stack EXCEPT ![Len(stack)].todo = Tail(f.todo), ![Len(stack)].done = f.done + 1]
     /\ UNCHANGED base /\ KeepCache
@@ -219,6 +226,8 @@ Restore(f, s) ==
       [] f.kind = "fit_fractions" ->
             IF ExactRestore THEN SetUsedChains(s, f.saved)
             ELSE SetUsedResNames(s, Chains)            \* amp.set_used_res(amp.used_res): every resonance
+      [] f.kind = "plot_weights" ->
+            IF ExactRestore THEN SetUsedChains(s, f.saved) ELSE SetUsedResNames(s, Chains)
       [] f.kind = "factor_iteration" ->
             IF ExactRestore THEN SetUsedChains(s, f.saved) ELSE [s EXCEPT !.sel = f.saved]
 
@@ -239,7 +248,8 @@ Unwind(st, s) ==
 Raise ==
     /\ ~Top /\ Tick
     \* inside a computation the exception comes out of an inner evaluation
-    /\ LET f == stack[Len(stack)] IN (f.kind \in AtomicKinds /\ f.kind # "fit_fractions") => f.done >= 1
+    \* (fit fractions and plot weights start with an evaluation of the full integral / weights)
+    /\ LET f == stack[Len(stack)] IN (f.kind \in AtomicKinds /\ f.kind \notin {"fit_fractions", "plot_weights"}) => f.done >= 1
     /\ m' = Unwind(stack, m)
     /\ stack' = <<>>
     /\ UNCHANGED base /\ KeepCache
@@ -282,7 +292,7 @@ Next ==
     \/ EnterTempVar
     \/ \E v \in PV : InnerSetParam(v)
     \/ EnterTempConfig(1)
-    \/ StartPartialWeight \/ StartInterference \/ StartFactorIteration
+    \/ StartPartialWeight \/ StartInterference \/ StartFactorIteration \/ StartPlotWeights
     \/ \E q \in ChainSeqs, b \in BOOLEAN : StartFitFractions(q, b)
     \/ CompStep \/ ExitNormal \/ Raise \/ Abandon
     \/ Call
